@@ -344,7 +344,7 @@ class SpecEval:
             if name == 'endswith':
                 return VB(z3.SuffixOf(strz(args[0]), s))
             if name == 'isspace':
-                return VB(ops.str_isspace(s))
+                return VB(ops.isspace_z(s))
             if name == 'strip':
                 return VS(ops.strip_z(s))
         raise Unsupported('spec method %s on %s' % (name, recv.ty))
